@@ -173,7 +173,8 @@ def lk_case(draw, tier):
     key = draw(st.sampled_from(["k", ("k", "j"), 0, ("k",)]))
     c = {"fn": fn, "table": tbl, "key": key}
     if fn in ("lookup", "lookupone"):
-        c["value"] = draw(st.sampled_from([None, hdr[-1], (hdr[-1], "k")]))
+        # (0: the first field given by its index - falsy, but a field selection all the same)
+        c["value"] = draw(st.sampled_from([None, hdr[-1], (hdr[-1], "k"), 0, nf - 1]))
     if fn.endswith("one"):
         c["strict"] = draw(st.booleans())
     # the documented dictionary= argument (any dict-like object, e.g. a shelve): the lookup is loaded into it
